@@ -4,4 +4,8 @@
 #define bpf_core_field_exists(field...) 1
 #define bpf_core_type_exists(type) 1
 #define BPF_CORE_READ(src, a, ...) 0
+#define bpf_core_enum_value_exists(enum_type, enum_value) 1
+#define bpf_core_enum_value(enum_type, enum_value) 0
+#define bpf_core_field_size(field...) 0
+#define bpf_core_type_size(type) 0
 #endif
